@@ -188,7 +188,7 @@ def okMerge (a b : QDict) (ans : Option QDict) : Bool :=
 def reservedKeys : List Str := [
   "transcript_id".toList, "transcript_name".toList, "transcript_biotype".toList, "transcript_type".toList,
   "protein_id".toList, "product".toList, "gene_id".toList, "gene_name".toList, "gene_symbol".toList,
-  "gene_biotype".toList, "gene_type".toList, "feature_id".toList, "feature_name".toList, "feature_symbol".toList,
+  "gene_biotype".toList, "gene_type".toList, "feature_id".toList, "feature_name".toList,
   "feature_collection_name".toList, "feature_collection_id".toList, "feature_collection_type".toList,
   "feature_colletion_type".toList, "feature_type".toList, "locus_tag".toList,
   "Name".toList, "name".toList, "Parent".toList, "parent".toList, "ID".toList, "id".toList]
